@@ -21,6 +21,7 @@ import (
 
 	"github.com/alephium/wormhole-fork/explorer-backend/guardiansets"
 	"github.com/alephium/wormhole-fork/explorer-backend/verifh/ev"
+	"github.com/alephium/wormhole-fork/explorer-backend/verifh/keys"
 	"github.com/alephium/wormhole-fork/node/pkg/common"
 	ethabi "github.com/alephium/wormhole-fork/node/pkg/ethereum/abi"
 	gethabi "github.com/ethereum/go-ethereum/accounts/abi"
@@ -114,7 +115,7 @@ func (c *fakeChain) serve(w http.ResponseWriter, rq *http.Request) {
 			}
 			gsv := ethabi.StructsGuardianSet{Keys: []ethcommon.Address{}}
 			if exists {
-				gsv.Keys = mkSet(idx).Keys
+				gsv.Keys = chainSet(idx).Keys
 			}
 			out, err := get.Outputs.Pack(gsv)
 			if err != nil {
@@ -127,6 +128,18 @@ func (c *fakeChain) serve(w http.ResponseWriter, rq *http.Request) {
 	default:
 		reply(nil)
 	}
+}
+
+// chainSet: what the chain holds for index i. Sets 4 and 5 are LARGER than the 19 guardians other chains allow
+// (the EVM contract has no such limit): 20 and 25 keys.
+func chainSet(i int) *common.GuardianSet {
+	switch i {
+	case 4:
+		return &common.GuardianSet{Index: 4, Keys: keys.Addrs(keys.Range(400, 420)...)}
+	case 5:
+		return &common.GuardianSet{Index: 5, Keys: keys.Addrs(keys.Range(500, 525)...)}
+	}
+	return mkSet(i)
 }
 
 type spRes struct {
@@ -159,8 +172,8 @@ func slowPath() int {
 			r.Violation("slow path: lookup of an index that exists on chain fails", fmt.Sprintf("%s: asked %d: %v", name, asked, res.err), rec)
 		case asked <= chainCur && int(res.set.Index) != asked:
 			r.Violation("slow path: a lookup that fetched sets from the chain while another append ran returned a set with another index", fmt.Sprintf("%s: asked %d got index %d", name, asked, res.set.Index), rec)
-		case asked <= chainCur && !sameKeys(res.set.Keys, mkSet(asked).Keys):
-			r.Violation("slow path: the set returned for index i does not have the keys of the chain's set i", fmt.Sprintf("%s: asked %d got %d keys, the chain's set has %d", name, asked, len(res.set.Keys), len(mkSet(asked).Keys)), rec)
+		case asked <= chainCur && !sameKeys(res.set.Keys, chainSet(asked).Keys):
+			r.Violation("slow path: the set returned for index i does not have the keys of the chain's set i", fmt.Sprintf("%s: asked %d got %d keys, the chain's set has %d", name, asked, len(res.set.Keys), len(chainSet(asked).Keys)), rec)
 		case asked > chainCur && res.err == nil:
 			r.Violation("slow path: lookup of an index that does not exist on chain returns a set", fmt.Sprintf("%s: asked %d (chain has 0..%d): got a set with index %d and %d keys", name, asked, chainCur, res.set.Index, len(res.set.Keys)), rec)
 		}
